@@ -7,6 +7,157 @@ From Coq Require Import String ZArith QArith List Bool Lia Arith.
 From Ticc Require Import Gen.PyRt Gen.G_likelihood Model.Viterbi Model.Accounting.
 Import ListNotations.
 
+
+(* ------------------------------------------------------------------ *)
+(* generic list / run-time facts (copied from GenEquivLA.v)            *)
+(* ------------------------------------------------------------------ *)
+Lemma lk_getitem_nat {A : Type} (l : list A) (k : nat) (d : A) : (k < length l)%nat ->
+  py_getitem l (Z.of_nat k) = Ret (nth k l d).
+Proof.
+  intros Hk. unfold py_getitem, py_len.
+  replace (Z.of_nat k <? 0)%Z with false by lia.
+  replace ((Z.of_nat k <? 0)%Z || (Z.of_nat (length l) <=? Z.of_nat k)%Z) with false by lia.
+  rewrite Nat2Z.id, (nth_error_nth' l d Hk). reflexivity.
+Qed.
+
+Lemma lk_set_index_nat {A : Type} (l : list A) (k : nat) (v : A) : (k < length l)%nat ->
+  py_set_index l (Z.of_nat k) v = Ret (set_nth k v l).
+Proof.
+  intros Hk. unfold py_set_index, py_len.
+  replace (Z.of_nat k <? 0)%Z with false by lia.
+  replace ((Z.of_nat k <? 0)%Z || (Z.of_nat (length l) <=? Z.of_nat k)%Z) with false by lia.
+  rewrite Nat2Z.id. reflexivity.
+Qed.
+
+Lemma lk_set_nth_length {A : Type} (k : nat) (v : A) (l : list A) : length (set_nth k v l) = length l.
+Proof.
+  revert k. induction l as [|x l IH]; intros k; [destruct k; reflexivity|].
+  destruct k as [|k]; cbn [set_nth length]; [reflexivity|]. rewrite IH. reflexivity.
+Qed.
+
+Lemma lk_nth_set_nth_same {A : Type} (k : nat) (v d : A) (l : list A) : (k < length l)%nat ->
+  nth k (set_nth k v l) d = v.
+Proof.
+  revert k. induction l as [|x l IH]; intros k Hk; cbn [length] in Hk; [lia|].
+  destruct k as [|k]; cbn [set_nth nth]; [reflexivity|]. apply IH. lia.
+Qed.
+
+Lemma lk_set_nth_twice {A : Type} (k : nat) (v w : A) (l : list A) :
+  set_nth k w (set_nth k v l) = set_nth k w l.
+Proof.
+  revert k. induction l as [|x l IH]; intros k; [destruct k; reflexivity|].
+  destruct k as [|k]; cbn [set_nth]; [reflexivity|]. rewrite IH. reflexivity.
+Qed.
+
+Lemma lk_set_nth_self {A : Type} (k : nat) (d : A) (l : list A) : set_nth k (nth k l d) l = l.
+Proof.
+  revert k. induction l as [|x l IH]; intros k; [destruct k; reflexivity|].
+  destruct k as [|k]; cbn [set_nth nth]; [reflexivity|]. rewrite IH. reflexivity.
+Qed.
+
+Lemma lk_set_nth_mid {A : Type} (pre post : list A) (x y : A) :
+  set_nth (length pre) y (pre ++ x :: post) = pre ++ y :: post.
+Proof. induction pre as [|p pre IH]; cbn [length app set_nth]; [reflexivity|]. rewrite IH. reflexivity. Qed.
+
+Lemma lk_skipn_cons {A : Type} (l : list A) : forall (n : nat) (d : A), (n < length l)%nat ->
+  skipn n l = nth n l d :: skipn (S n) l.
+Proof.
+  induction l as [|x l IH]; intros n d Hn; cbn [length] in Hn; [lia|].
+  destruct n as [|n]; [reflexivity|]. cbn [skipn nth]. rewrite (IH n d) by lia. reflexivity.
+Qed.
+
+Lemma lk_set_nth_fill {A : Type} (n : nat) (v : A) (pre row : list A) :
+  length pre = n -> (n < length row)%nat ->
+  set_nth n v (pre ++ skipn n row) = (pre ++ [v]) ++ skipn (S n) row.
+Proof.
+  intros Hp Hn. rewrite (lk_skipn_cons row n v Hn). subst n. rewrite lk_set_nth_mid, <- app_assoc. reflexivity.
+Qed.
+
+Lemma lk_Forall_nth_len {A : Type} (K : nat) (l : list (list A)) (i : nat) :
+  Forall (fun r => length r = K) l -> (i < length l)%nat -> length (nth i l []) = K.
+Proof. intros H Hi. rewrite Forall_forall in H. apply H, nth_In, Hi. Qed.
+
+Lemma lk_Forall_repeat {A : Type} (P : A -> Prop) (x : A) (n : nat) : P x -> Forall P (repeat x n).
+Proof. intros H. induction n as [|n IH]; cbn [repeat]; constructor; assumption. Qed.
+
+Lemma lk_bin_vv {A : Type} (f : A -> A -> A) (a b : list A) : length a = length b ->
+  np_bin_vv f a b = Ret (map2 f a b).
+Proof. intros H. unfold np_bin_vv. rewrite H, Nat.eqb_refl. reflexivity. Qed.
+
+Lemma lk_row_nat {A : Type} (r k : Z) (cells : list (list A)) (i : nat) : (i < length cells)%nat ->
+  np_row (mk_arr2 r k cells) (Z.of_nat i) = Ret (nth i cells []).
+Proof. intros Hi. unfold np_row. cbn [a_cells]. apply lk_getitem_nat, Hi. Qed.
+
+Lemma lk_set2_nat {A : Type} (r k : Z) (cells : list (list A)) (i j : nat) (v : A) :
+  (i < length cells)%nat -> (j < length (nth i cells []))%nat ->
+  np_set2 (mk_arr2 r k cells) (Z.of_nat i) (Z.of_nat j) v
+  = Ret (mk_arr2 r k (set_nth i (set_nth j v (nth i cells [])) cells)).
+Proof.
+  intros Hi Hj. unfold np_set2. cbn [a_cells a_rows a_cols]. rewrite (lk_getitem_nat _ _ [] Hi). cbn [bind].
+  rewrite (lk_set_index_nat _ _ _ Hj). cbn [bind].
+  replace (Z.of_nat i <? 0)%Z with false by lia. rewrite Nat2Z.id. reflexivity.
+Qed.
+
+(* a loop that stores one computed value per column into row i of an array *)
+Lemma lk_fill_row {A : Type} (body : arr2 A -> Z -> res (arr2 A)) (h : nat -> A) (i K : nat) (ra ka : Z) :
+  (forall c ca, (c < K)%nat -> (i < length ca)%nat -> length (nth i ca []) = K ->
+      body (mk_arr2 ra ka ca) (Z.of_nat c)
+      = Ret (mk_arr2 ra ka (set_nth i (set_nth c (h c) (nth i ca [])) ca))) ->
+  forall ca, (i < length ca)%nat -> length (nth i ca []) = K ->
+  forall n, (n <= K)%nat ->
+    foldM body (map Z.of_nat (seq 0 n)) (mk_arr2 ra ka ca)
+    = Ret (mk_arr2 ra ka (set_nth i (map h (seq 0 n) ++ skipn n (nth i ca [])) ca)).
+Proof.
+  intros Hbody ca Hia Hra. induction n as [|n IH]; intros Hn.
+  - cbn [seq map foldM app skipn]. rewrite lk_set_nth_self. reflexivity.
+  - rewrite seq_S, map_app, foldM_app, IH by lia. cbn [bind Nat.add map foldM].
+    assert (Hla : length (map h (seq 0 n) ++ skipn n (nth i ca [])) = K)
+      by (rewrite app_length, map_length, seq_length, skipn_length; lia).
+    rewrite Hbody; try (rewrite ?lk_set_nth_length, ?lk_nth_set_nth_same; solve [assumption | lia]).
+    cbn [bind]. rewrite lk_nth_set_nth_same by assumption. rewrite lk_set_nth_twice.
+    rewrite lk_set_nth_fill by (rewrite ?map_length, ?seq_length; lia).
+    rewrite map_app. reflexivity.
+Qed.
+
+(* a loop that replaces one row per iteration by a computed row of the same width *)
+Lemma lk_fill_rows {A : Type} (body : arr2 A -> Z -> res (arr2 A)) (g : nat -> list A) (T K : nat) (ra ka : Z) :
+  (forall p, (p < T)%nat -> length (g p) = K) ->
+  (forall p ca, (p < T)%nat -> length ca = T -> Forall (fun r => length r = K) ca ->
+      body (mk_arr2 ra ka ca) (Z.of_nat p) = Ret (mk_arr2 ra ka (set_nth p (g p) ca))) ->
+  forall ca, length ca = T -> Forall (fun r => length r = K) ca ->
+  forall n, (n <= T)%nat ->
+    foldM body (map Z.of_nat (seq 0 n)) (mk_arr2 ra ka ca)
+    = Ret (mk_arr2 ra ka (map g (seq 0 n) ++ skipn n ca)).
+Proof.
+  intros Hg Hbody ca Hlen Hw. induction n as [|n IH]; intros Hn.
+  - reflexivity.
+  - rewrite seq_S, map_app, foldM_app, IH by lia. cbn [bind Nat.add map foldM].
+    rewrite Hbody.
+    + cbn [bind]. rewrite lk_set_nth_fill by (rewrite ?map_length, ?seq_length; lia).
+      rewrite map_app. reflexivity.
+    + lia.
+    + rewrite app_length, map_length, seq_length, skipn_length. lia.
+    + apply Forall_app. split.
+      * apply Forall_forall. intros r Hr. apply in_map_iff in Hr. destruct Hr as [p [Hp Hin]].
+        subst r. apply Hg. apply in_seq in Hin. lia.
+      * apply Forall_forall. intros r Hr. rewrite Forall_forall in Hw. apply Hw.
+        rewrite <- (firstn_skipn n ca). apply in_or_app. right. exact Hr.
+Qed.
+
+(* int(a / b) on two naturals *)
+Lemma lk_int_div (a b : nat) : (1 <= b)%nat ->
+  exists q : Q, py_truediv_int (Z.of_nat a) (Z.of_nat b) = Ret q /\ py_int_of_float q = Z.of_nat (a / b).
+Proof.
+  intros Hb. unfold py_truediv_int.
+  replace (Z.of_nat b =? 0)%Z with false by lia.
+  eexists. split; [reflexivity|].
+  rewrite Nat2Z.inj_div.
+  destruct (Z.of_nat b) as [|pb|pb] eqn:Eb; [lia| |lia].
+  unfold py_int_of_float, Qdiv, Qinv, Qmult, inject_Z. cbn [Qnum Qden].
+  rewrite Z.mul_1_r. change (1 * pb)%positive with pb.
+  apply Z.quot_div_nonneg; lia.
+Qed.
+
 Section E.
   Variable F : Type.
   Variables (zero half two : F) (sub mul : F -> F -> F).
@@ -28,12 +179,17 @@ Section E.
   Definition quad_of (data mus : list (list F)) (thetas : list M) (p c : nat) : F :=
     let d := centred (nth p data []) (nth c mus []) in np_quad_form d (nth c thetas dm) d.
 
-  (* STATEMENTS (to be proved):
   Theorem g_point_ll_eq (point mu : list F) (theta : M) (ld : F) (W N : nat) :
     length point = length mu ->
     g_point_log_likelihood_fast F sub mul of_int M flit math_pi np_log np_quad_form point mu theta ld (Z.of_nat W) (Z.of_nat N)
     = Ret (ll half sub mul ld (np_quad_form (centred point mu) theta (centred point mu))
               (nw_log_2pi mul of_nat (W * N) log2pi)).
+  Proof.
+    intros Hlen. unfold g_point_log_likelihood_fast.
+    rewrite (lk_bin_vv sub point mu Hlen). cbn [bind].
+    rewrite <- Nat2Z.inj_mul, of_int_nat, of_int_2, flit_half.
+    reflexivity.
+  Qed.
 
   Theorem g_ll_table_eq (T K NW W : nat) (data mus : list (list F)) (thetas : list M) (lds : list F) :
     (1 <= W)%nat ->
@@ -44,8 +200,40 @@ Section E.
        (Z.of_nat W) (Z.of_nat K) (mk_arr2 (Z.of_nat K) (Z.of_nat NW) mus) thetas lds (mk_arr2 (Z.of_nat T) (Z.of_nat NW) data)
     = Ret (mk_arr2 (Z.of_nat T) (Z.of_nat K)
              (ll_table half sub mul of_nat T K (W * (NW / W)) log2pi (fun c => nth c lds zero) (quad_of data mus thetas))).
-  *)
+  Proof.
+    intros HW Hld Hwd Hlm Hwm Hlt Hll.
+    unfold g_all_points_all_clusters_log_likelihood_fast. cbn [a_rows a_cols].
+    destruct (lk_int_div NW W HW) as [q [Hq Hqi]]. rewrite Hq. cbn [bind]. rewrite Hqi.
+    unfold np_zeros2. replace ((Z.of_nat T <? 0)%Z || (Z.of_nat K <? 0)%Z) with false by lia.
+    rewrite !Nat2Z.id. cbn [bind]. rewrite !zrange_of_nat.
+    set (cell := fun p c : nat => ll half sub mul (nth c lds zero) (quad_of data mus thetas p c)
+                                   (nw_log_2pi mul of_nat (W * (NW / W)) log2pi)).
+    rewrite (lk_fill_rows _ (fun p => map (cell p) (seq 0 K)) T K).
+    - cbn [bind]. rewrite skipn_all2 by (rewrite repeat_length; lia). rewrite app_nil_r. reflexivity.
+    - intros p Hp. rewrite map_length, seq_length. reflexivity.
+    - intros p ca Hp Hlca Hwca.
+      rewrite (lk_fill_row _ (cell p) p K).
+      + cbn [bind]. rewrite skipn_all2 by (rewrite (lk_Forall_nth_len K); [lia|assumption|lia]).
+        rewrite app_nil_r. reflexivity.
+      + intros c cb Hc Hpcb Hrow.
+        rewrite (lk_row_nat _ _ data p) by lia. cbn [bind].
+        rewrite (lk_row_nat _ _ mus c) by lia. cbn [bind].
+        rewrite (lk_getitem_nat thetas c dm) by lia. cbn [bind].
+        rewrite (lk_getitem_nat lds c zero) by lia. cbn [bind].
+        rewrite g_point_ll_eq.
+        * cbn [bind]. rewrite (lk_set2_nat _ _ cb p c) by lia. cbn [bind]. reflexivity.
+        * rewrite (lk_Forall_nth_len NW data p), (lk_Forall_nth_len NW mus c); try assumption; lia.
+      + lia.
+      + apply lk_Forall_nth_len; [assumption|lia].
+      + lia.
+    - apply repeat_length.
+    - apply lk_Forall_repeat, repeat_length.
+    - lia.
+  Qed.
 End E.
+
+Print Assumptions g_point_ll_eq.
+Print Assumptions g_ll_table_eq.
 
 Definition d0 : list (list Z) := [[3;1;4;1];[5;9;2;6];[5;3;5;8]]%Z.
 Definition m0 : list (list Z) := [[1;0;2;1];[4;4;1;0]]%Z.
